@@ -23,7 +23,7 @@ pub assume_specification<T: Clone> [ <T as ToOwned>::to_owned ] (s: &T) -> (r: T
 pub assume_specification [ String::as_bytes ] (s: &String) -> (r: &[u8])
     ensures r@ == str_bytes(s@);
 pub assume_specification<T: PartialEq> [ <[T]>::contains ] (s: &[T], x: &T) -> (r: bool)
-    ensures T::obeys_eq_spec() ==> r == (exists|i: int| 0 <= i < s@.len() && #[trigger] s@[i].eq_spec(x));
+    ensures T::obeys_eq_spec() ==> r == (exists|i: int| 0 <= i < s@.len() && (#[trigger] s@[i]).eq_spec(x));
 
 // ---------- abort-on-None/Err (rule R2) ----------
 pub trait UnwrapAbort<T>: Sized {
@@ -215,7 +215,8 @@ impl Decimal {
     { unimplemented!() }
     #[verifier::external_body]
     pub fn to_u128(&self) -> (r: Option<u128>)
-        ensures self.q@ < 0 ==> r is None, self.q@ >= 0 ==> r is Some && r->0 as int == whole(self.q@)
+        ensures self.q@ < 0 ==> r is None, self.q@ >= 0 ==> r is Some && r->0 as int == whole(self.q@),
+                r is Some ==> (r->0 as int) < LIMIT96(),     // a Decimal's integer part fits 96 bits
     { unimplemented!() }
     #[verifier::external_body]
     pub fn from_u128(n: u128) -> (r: Option<Decimal>)
